@@ -141,7 +141,7 @@ func (p *Program) LemmaObligation(lm *SpecLemma) (ob *Obligation, err error) {
 	for _, n := range lm.Reveal {
 		rv[n] = true
 	}
-	ob.Queries = []*Query{{U: p.U, Lines: st.allLines(), Goal: goal, Reveal: rv}}
+	ob.Queries = []*Query{{U: p.U, Lines: st.allLines(), Goal: goal, Reveal: rv, NoAxioms: lm.NoAxioms}}
 	ob.Traces = [][]string{nil}
 	return ob, nil
 }
